@@ -90,6 +90,18 @@ CHECKS = {
              "labellings and must equal the model exactly (decided in Coq), dense output must carry X's own index; the seven real detectors are run under every index kind.",
         note=BASE_TB + "Model/Convert.v hand-written (pandas IntervalIndex.get_indexer, diff, groupby are the platform). No axioms.",
         ref="DESIGN.md section 4 / C05"),
+    "C14": dict(
+        technique="Coq proof (characterisation of the documented domain; totality / non-empty search ranges of the algorithm models at the boundary values) + exhaustive configuration-grid correspondence",
+        text="Theorems in coq/Properties/C14.v: Model/Config.expected says 'completes' exactly when the configuration is in the documented domain, the data have no missing values, "
+             "n >= the documented minimum and the scorer can score segments that short; it says 'must raise ValueError' exactly when the configuration is outside the domain, values "
+             "are missing or the data are too short; the domains are spelled out per detector; at the boundary values the algorithm models are total with non-empty search ranges "
+             "(seeded intervals exist for max_interval_length = 2 min_segment_length and every n >= 2m; circular binary segmentation is total for m = 1; bandwidth 1 gives the symmetric "
+             "cut; PELT is admissible at n = 2m). Tie: the complete grid of boundary and interior hyper-parameter values of all seven detectors x p x n around the minimum x NaN is "
+             "run through construct -> fit -> predict; the outcome class must equal the model's (decided in Coq); any exception other than ValueError is a violation.",
+        note=BASE_TB + "Model/Config.v hand-written (abstraction of a configuration to the quantities the checks inspect). `level`, penalty family names and the not-positive-definite "
+             "branch are outside this grid (see assumptions in the evidence). When the scorer's min_size exceeds the requested segment length both ValueError and completion are "
+             "permitted (MayRaiseValueError). No axioms.",
+        ref="DESIGN.md section 4 / C14"),
     "C15": dict(
         technique="Coq proof over Reals of the formulas REGENERATED from the source by the translator, Q model of np.quantile with exceedance bound, PELT penalty monotonicity corollary; correspondence on a parameter grid",
         text="Theorems in coq/Properties/C15.v about the kernels regenerated from /repo on every run: default penalties/thresholds equal 2 p log n, 2 p sqrt(log n), 2 p log(n L); "
